@@ -14,6 +14,7 @@ import (
 	"strings"
 	"sync"
 	"testing"
+	"time"
 
 	"github.com/oneconcern/datamon/pkg/cafs"
 	"verif/harness/lib"
@@ -360,6 +361,74 @@ func c02sched(t *testing.T, rep *lib.Report) {
 		if !lib.Thorough() {
 			e.MaxExecs = 30000
 		}
+		e.Explore(t, rep)
+		rep.Set(s.Name+"_executions", e.Execs)
+	}
+
+	// a Put under a single transient failure of any of its store calls: an error, or exactly the fault-free result
+	for _, c := range []sc{{2, 2}, {3, 2}, {3, 4}} {
+		c := c
+		data := pattern("pos", c.leaves*L+17, L)
+		refSt := lib.NewMemStore("blob")
+		refRes, err := newFs(refSt, L, 1, 0, 4).Put(ctx, bytes.NewReader(data))
+		if err != nil {
+			t.Fatal(err)
+		}
+		refDigest := refSt.Digest()
+		s := &lib.Scenario{Name: fmt.Sprintf("put-under-fault-%dfull-leaves-conc%d", c.leaves, c.conc)}
+		s.Setup = func(x *lib.Exec) { x.Data["st"] = lib.NewMemStore("blob") }
+		s.Phases = [][]lib.ClientFn{{func(x *lib.Exec, id int) error {
+			st := x.Data["st"].(*lib.MemStore)
+			g := &lib.GatedStore{Inner: st, X: x, Client: id, Name: "blob"}
+			fs, err := cafs.New(cafs.LeafSize(uint32(L)), cafs.Backend(g), cafs.ConcurrentFlushes(c.conc), cafs.Logger(nopLogger), cafs.CacheSize(4*L))
+			if err != nil {
+				return err
+			}
+			var res cafs.PutRes
+			var perr error
+			func() {
+				defer func() {
+					if r := recover(); r != nil {
+						perr = fmt.Errorf("panic: %v", r)
+						x.Data["panic"] = fmt.Sprint(r)
+					}
+				}()
+				res, perr = fs.Put(ctx, source(data, 50))
+			}()
+			if perr == nil {
+				x.Data["res"] = res
+			}
+			return perr
+		}}}
+		s.Faults = transientFaults(0)
+		s.Final = func(x *lib.Exec) {
+			st := x.Data["st"].(*lib.MemStore)
+			site := faultClass(x)
+			if x.Hung {
+				x.Violate("C02|under-fault|hang", "Put never returned under "+site)
+				return
+			}
+			if p, ok := x.Data["panic"].(string); ok {
+				x.Violate("C02|under-fault|panic", fmt.Sprintf("Put panicked under %s: %s", site, p))
+				return
+			}
+			err := x.ClientErr[0]
+			x.SetOutcome(site + ";" + errTag(err))
+			if err != nil {
+				if site == "none" {
+					x.Violate("C02|under-fault|error-without-fault", err.Error())
+				}
+				return
+			}
+			res := x.Data["res"].(cafs.PutRes)
+			if res.Key != refRes.Key || !bytes.Equal(res.Keys, refRes.Keys) {
+				x.Violate("C02|under-fault|success-with-wrong-key", fmt.Sprintf("Put returned nil under %s with key %s; the content's key is %s", site, res.Key, refRes.Key))
+			}
+			if st.Digest() != refDigest {
+				x.Violate("C02|under-fault|success-with-incomplete-store", fmt.Sprintf("Put returned nil under %s but the blob store differs from a fault-free run (%d vs %d objects)", site, len(st.RawKeys()), len(refSt.RawKeys())))
+			}
+		}
+		e := &lib.Explorer{Sc: s, PreemptBound: 0, FaultBound: 1, MaxExecs: 100000, Budget: 5 * time.Minute}
 		e.Explore(t, rep)
 		rep.Set(s.Name+"_executions", e.Execs)
 	}
